@@ -42,6 +42,10 @@ fn parse_line(line: &str) -> Result<Option<(IpAddr, HashSet<DomainName>)>, Error
     let mut address = IpAddr::V4(Ipv4Addr::LOCALHOST);
     let mut new_names = HashSet::new();
 
+    // a comment runs from the first `#` to the end of the line,
+    // whatever comes before or after it
+    let line = line.split('#').next().unwrap_or(line);
+
     for (i, octet) in line.char_indices() {
         if !octet.is_ascii() {
             return Err(Error::ExpectedAscii { octet });
